@@ -46,7 +46,7 @@ class Prop(BaseProp):
     HEADLINE = ["signatures_checked", "kwargs_expected_true", "kwargs_expected_false", "cpa_calls", "doc_on_impl_cases"]
 
     def n_cases(self, tier):
-        return 1500 if tier == "quick" else 25000
+        return 8000 if tier == "quick" else 100000
 
     def setup_worker(self):
         runner.cminx()
